@@ -17,6 +17,7 @@ from __future__ import annotations
 
 import itertools
 import json
+import random
 import subprocess
 
 from harness import core
@@ -949,6 +950,105 @@ def run_elif(ctx, drv, progs):
                     ctx.corr_break("analyse", case, res if rows is None else rows, m)
 
 
+
+# ---------------------------------------------------------------------------
+# re-evaluation histories: the value of a directive is a function of the macro table in force, however
+# often and under whatever tables the same (shared) directive node was evaluated before
+# ---------------------------------------------------------------------------
+IND_VALUES = {"J1": [0, 1, 2, 3, 5], "J2": [0, 1, 4], "K": [0, 3, 7]}
+
+
+def history_tree(rng, vals):
+    """an expression over macros that reach their value through one or two levels of indirection"""
+    def j(n):
+        return macro(n, mk_lit(vals[n]))
+
+    leaves = [lambda: macro("I1", j("J1")),                                    # I1 -> J1 -> value
+              lambda: macro("I2", par(bin_("+", j("J1"), j("J2")))),           # I2 -> (J1+J2)
+              lambda: macro("I3", macro("I3b", j("K"))),                       # I3 -> I3b -> K -> value
+              lambda: j(rng.choice(["J1", "J2", "K"])),
+              lambda: mk_lit(rng.choice([0, 1, 2, 3, 4, 7]))]
+
+    def leaf():
+        return rng.choice(leaves[:3] if rng.random() < 0.7 else leaves)()
+
+    r = rng.random()
+    if r < 0.45:
+        t = bin_(rng.choice(["==", ">=", "<", "!=", ">"]), leaf(), mk_lit(rng.choice([0, 1, 2, 3, 4, 5, 7])))
+    elif r < 0.6:
+        t = bin_(rng.choice(["&&", "||"]), leaf(), un("!", leaf()))
+    elif r < 0.8:
+        t = bin_(rng.choice(["==", "<", ">="]), bin_(rng.choice(["+", "*", "-", "&", "|"]), leaf(), leaf()), leaf())
+    else:
+        t = tern(leaf(), leaf(), bin_("-", leaf(), mk_lit(1)))
+    return parenthesize(t)
+
+
+HISTORY_DEFS = ["I1=J1", "I2=(J1+J2)", "I3=I3b", "I3b=K"]
+
+
+def run_history(ctx, drv, impl, n, corpus=()):
+    pp = impl.pp
+    rng = ctx.rng
+    jobs = []
+    for c in corpus:
+        jobs.append(c)
+    for _ in range(n):
+        tabs = []
+        for _k in range(rng.randint(2, 4)):
+            tabs.append({m: rng.choice(v) for m, v in IND_VALUES.items()})
+        seed = rng.getrandbits(32)
+        jobs.append({"origin": "history", "tables": tabs, "tree_seed": seed, "kind": rng.choice(["if", "elif"])})
+    for job in jobs:
+        trees = [history_tree(random.Random(job["tree_seed"]), vals) for vals in job["tables"]]
+        text = join_tokens(src_tokens(trees[0], []))
+        steps = []
+        for vals, t in zip(job["tables"], trees):
+            assert join_tokens(src_tokens(t, [])) == text
+            defs = HISTORY_DEFS + [f"{m}={v}" for m, v in vals.items()]
+            steps.append({"defs": defs, "ast": spec_tree(t)})
+        case = dict(job, text=text, steps=[{"defs": st["defs"]} for st in steps])
+        try:
+            if job["kind"] == "if":
+                node = pp.DirectiveParser(pp.Lexer("#if " + text).tokenize()).parse()
+            else:
+                node = pp.DirectiveParser(pp.Lexer("#elif " + text).tokenize()).parse()
+        except BaseException as e:  # noqa
+            ctx.violation(f"`#{job['kind']} {text}` is not parsed: {impl.exc_name(e)}", case)
+            continue
+        got, want, fresh = [], [], []
+        for st in steps:
+            p = impl.platform_mod.Platform("p", "/")
+            for d in st["defs"]:
+                m = pp.macro_from_definition_string(d)
+                p.define(m.name, m)
+            try:
+                got.append(bool(node.evaluate_for_platform(platform=p)))
+            except BaseException as e:  # noqa
+                got.append({"exc": impl.exc_name(e)})
+            fresh.append(impl.truth(text, st["defs"]))
+            if drv is not None:
+                m = drv.ask({"op": "evalx", "text": text, "defs": st["defs"], "env": sorted(set(d.split("=")[0] for d in st["defs"])), "ast": st["ast"]})
+                ok = m.get("spec") is not None and "v" in (m.get("spec") or {}) and m.get("grammatical") and m.get("consts_ok", True) is not None
+                want.append((int(m["spec"]["v"]) != 0) if (m.get("spec") and "v" in m["spec"]) else None)
+                mt = m.get("truth")
+                if mt != fresh[-1] and not isinstance(fresh[-1], dict):
+                    ctx.corr_break("evalx(history)", dict(case, step=len(got) - 1), fresh[-1], mt)
+            else:
+                want.append(None)
+        ctx.count(key="history", nontrivial_key=("hist|" + text + "|" + json.dumps(job["tables"])) if len({json.dumps(w) for w in want}) > 1 else None)
+        ctx.dist[f"history:evaluations={len(steps)}"] += 1
+        if sum(1 for x in ctx.samples if x.get("origin") == "history") < 2:
+            ctx.sample({"origin": "history", "text": f"#{job['kind']} {text}", "tables": job["tables"], "truths": got})
+        for i, (g, w, f) in enumerate(zip(got, want, fresh)):
+            ref = w if w is not None else (f if not isinstance(f, dict) else None)
+            if ref is not None and g != ref:
+                ctx.violation(f"`#{job['kind']} {text}` evaluated for the macro tables {job['tables'][:i + 1]} in this order on one directive node: "
+                              f"evaluation {i + 1} gives {g}, ISO C value under table {job['tables'][i]} is {ref} "
+                              f"(a fresh evaluation of the same text gives {f})", dict(case, failing_step=i))
+                break
+
+
 # ---------------------------------------------------------------------------
 # gcc oracle (thorough): validates the SPEC
 # ---------------------------------------------------------------------------
@@ -1125,7 +1225,7 @@ def run(ctx, drv):
         "expression() is called directly to observe value and signedness (the public API exposes truth only); the same values are also observed through truth-only probes",
     ]
     # ---- corpus first
-    run_cases(ctx, drv, impl, corpus_cases(), probe_every=1, full_every=1)
+    run_cases(ctx, drv, impl, [c for c in corpus_cases() if "tables" not in c], probe_every=1, full_every=1)
     # ---- exhaustive small expressions + every literal spelling
     run_cases(ctx, drv, impl, tree_cases(ctx, exhaustive_small(ctx, full), "exh"))
     run_cases(ctx, drv, impl, tree_cases(ctx, all_literal_spellings(ctx, full), "lit", ws=0.0))
@@ -1137,6 +1237,8 @@ def run(ctx, drv):
     run_cases(ctx, drv, impl, glue_cases(ctx, ctx.n(1500, 10000)), probe_every=10 ** 9)
     # ---- #elif clause
     run_elif(ctx, drv, elif_programs(ctx, ctx.n(40, 600)))
+    # ---- re-evaluation histories on one directive node
+    run_history(ctx, drv, impl, ctx.n(300, 3000), corpus=[dict(c, origin="history") for c in corpus_cases() if "tables" in c])
     pairs = ctx.extra.pop("_pairs", set())
     ctx.extra["wf_operator_nestings_seen"] = {
         "flat (a o b o c)": len({p for p in pairs if p[0] == "flat"}),
@@ -1154,7 +1256,7 @@ def search(ctx, drv):
     """failing-input search (a proof obligation, the translator or the correspondence broke): the same
     generators with the larger budget; shapes already cover every operator pair"""
     impl = Impl()
-    run_cases(ctx, drv, impl, corpus_cases(), probe_every=1, full_every=1)
+    run_cases(ctx, drv, impl, [c for c in corpus_cases() if "tables" not in c], probe_every=1, full_every=1)
     if ctx.violations:
         return
     run_cases(ctx, drv, impl, tree_cases(ctx, exhaustive_small(ctx, False), "search"))
@@ -1166,10 +1268,17 @@ def search(ctx, drv):
     run_cases(ctx, drv, impl, random_cases(ctx, ctx.n(4000, 20000), origin="search"))
     if not ctx.violations:
         run_elif(ctx, drv, elif_programs(ctx, ctx.n(20, 100)))
+    if not ctx.violations:
+        run_history(ctx, drv, impl, ctx.n(300, 1000))
 
 
 def replay(ctx, drv, case):
     impl = Impl()
+    if case.get("origin") == "history":
+        c2 = core.Ctx(ctx.prop, "quick", 0)
+        run_history(c2, drv, impl, 0, corpus=[{k: case[k] for k in ("origin", "tables", "tree_seed", "kind")}])
+        return {"text": case["text"], "tables": case["tables"], "violations": [w for w, _ in c2.violations],
+                "correspondence_breaks": c2.corr_breaks, "samples": c2.samples}
     if "program" in case:
         c2 = core.Ctx(ctx.prop, "quick", 0)
         run_elif(c2, drv, [(case["program"], case.get("defs", []), {})])
